@@ -8,7 +8,7 @@ SPEC = {
     "id": "C26",
     "coq_props": ["Properties/C26.v", "Corr/C26.v"],
     "module": "MS.Properties.C26",
-    "theorems": ["C26_no_fault", "C26_refuted", "C26_delivery_refuted",
+    "theorems": ["C26_no_fault", "C26_no_deadlock", "C26_refuted", "C26_delivery_refuted",
                  "C26_stable_no_fault", "C26_stable_delivery", "C26_stable_complete", "C26_stable_progress"],
     "corr_require": "Require Import MS.Corr.C26.",
     "agrees": "C26.agrees",
@@ -59,6 +59,50 @@ SPEC = {
                   "Run, Send. gRPC itself is outside the model.",
     "design_ref": "§6 C26, §5.2, §8 F22, §10",
 }
+
+
+def cleanup_order(ctx, rows, info, broken):
+    """Source tie for the lock discipline and the cleanup ORDER the theorems assume (replication/grpc_server.go):
+      * SendReplicationMessage takes rs.mu.RLock() before `range rs.StreamChannels`;
+      * in GetWALStream the insert `rs.StreamChannels[clientAddr] =` lies between rs.mu.Lock() and rs.mu.Unlock();
+      * in the cleanup, the drainer `go func() { for range streamChannel ... }()` is STARTED BEFORE the rs.mu.Lock() that
+        precedes `delete(rs.StreamChannels, ...)` (C26_no_deadlock needs GSpawn before GDelB; the swapped order deadlocks:
+        C26_swapped_order_deadlocks), and `close(streamChannel)` lies between that Lock and the following Unlock."""
+    import os
+    import re
+    p = os.path.join(vk.REPO, "replication", "grpc_server.go")
+    bad = []
+    try:
+        t = re.sub(r"//[^\n]*", "", open(p, errors="replace").read())
+    except OSError as e:
+        bad.append(str(e))
+        t = ""
+    i_send = t.find("func (rs *GRPCReplicationServer) SendReplicationMessage")
+    if i_send < 0 or not (0 <= t.find("rs.mu.RLock()", i_send) < t.find("range rs.StreamChannels", i_send)):
+        bad.append("SendReplicationMessage does not take rs.mu.RLock() before ranging over StreamChannels")
+    g = t[t.find("func (rs *GRPCReplicationServer) GetWALStream"):i_send if i_send > 0 else None]
+    i_ins = g.find("rs.StreamChannels[clientAddr] =")
+    if i_ins < 0 or g.rfind("rs.mu.Lock()", 0, i_ins) < 0 or g.rfind("rs.mu.Lock()", 0, i_ins) < g.rfind("rs.mu.Unlock()", 0, i_ins):
+        bad.append("GetWALStream: the map insert is not under rs.mu.Lock()")
+    i_del = g.find("delete(rs.StreamChannels")
+    i_lock = g.rfind("rs.mu.Lock()", 0, i_del) if i_del >= 0 else -1
+    i_drain = g.find("for range streamChannel")
+    i_go = g.rfind("go func()", 0, i_drain) if i_drain >= 0 else -1
+    if i_del < 0 or i_lock < 0 or i_lock < g.rfind("rs.mu.Unlock()", 0, i_del):
+        bad.append("GetWALStream: delete(rs.StreamChannels, ..) is not under rs.mu.Lock()")
+    if i_drain < 0 or i_go < 0:
+        bad.append("GetWALStream: no drainer goroutine (go func() { for range streamChannel {} }()) in the cleanup")
+    elif i_lock >= 0 and not (i_go < i_lock and i_drain < i_lock):
+        bad.append("GetWALStream: the drainer goroutine is started AFTER rs.mu.Lock() of the cleanup (must precede it)")
+    i_close = g.find("close(streamChannel)")
+    if i_close < 0 or not (i_lock >= 0 and i_lock < i_close < g.find("rs.mu.Unlock()", i_close if i_close >= 0 else 0)):
+        bad.append("GetWALStream: close(streamChannel) is not between the cleanup's rs.mu.Lock() and rs.mu.Unlock()")
+    info.setdefault("extra_coverage", {})["replication_lock_order_offences"] = bad
+    if bad:
+        broken.append(("translation", "C26_no_deadlock / C26_no_fault: lock discipline or cleanup order not as modelled", "; ".join(bad)))
+
+
+SPEC["post"] = cleanup_order
 
 
 def run(ctx, replay=None):
